@@ -35,9 +35,11 @@ META2 = {
         explanation="r_resolve.c: one line AT<name><suffix><args>LF, typed name over the whole legal alphabet in either case, table of 3 commands in 2 groups with symbolic names (prefixes of one "
                     "another, duplicates, any order are all inside), flags, handler subsets. The harness computes the reference resolution (first enabled exact match, else unique enabled "
                     "abbreviation, implicit-write cut-off, request type from the suffix incl. the '=?' rule) and compares it with the log of handler invocations.",
-        bounds={"quick": "11 shapes: names of 1..3 typed characters against names of 1..2 characters, all four suffixes, 0..2 argument bytes; " + E3_WORLD,
-                "thorough": "same shapes (larger tables are outside)"},
-        outside="tables of more than 3 commands (the 2-bit lanes beyond the first byte of the match table are not exercised), names longer than 2 characters",
+        bounds={"quick": "11 shapes: names of 1..3 typed characters against names of 1..2 characters, all four suffixes, 0..2 argument bytes; " + E3_WORLD +
+                         "; plus kernel job k_lanes.c: the 2-bit match table for a table of 200 commands in 2 groups (symbolic indices i != j: read-after-write, no interference, disabled => NOT_MATCH, "
+                         "prepare_parse_command, to_upper / legal alphabet over all 256 characters)",
+                "thorough": "same shapes; k_lanes with 600 commands"},
+        outside="line-level runs on tables of more than 3 commands (the match-table arithmetic for big tables is checked at kernel level only), names longer than 2 characters",
         assumptions=["handlers return terminal codes"],
         level_text="bounded model checking through the public API with a symbolic command table; table size and name length are small, stated bounds"),
     "C03": dict(
@@ -78,7 +80,8 @@ META2 = {
         explanation="r_args.c: fixed table (+A no variable, +B uint8, +C int8), line AT+k=<args>LF / AT+k?LF with argument bytes over all values except LF (CR included); the write handler's view "
                     "(bytes, length, NUL, args_num) is compared with the harness's copy of the sent bytes; arguments that do not fit must give ERROR with no handler / callback / variable change; the read "
                     "handler must be given the formatted text, its length and the true capacity (shared and separate event buffer).",
-        bounds={"quick": "argument lengths 0,2,5,6,7,9 against command buffers of 6..8 bytes (shared) and 6,9 (separate), READ on both layouts",
+        bounds={"quick": "argument lengths 0,2,5,6,7,9 against command buffers of 6..8 bytes (shared) and 6,9 (separate), READ on both layouts; plus step jobs (s_step.c, states READ_LOOP / TEST_LOOP of "
+                         "both machines, shared and separate event buffer of any size 0..8): every read/test handler is given its own machine's buffer, cursor and true capacity",
                 "thorough": "argument lengths 0..10 shared, 0..9 separate"},
         outside="arguments beyond capacity+2 (the drain state is covered by C01/C03 step jobs), buffers above 8 bytes, more than one variable",
         assumptions=["handlers return terminal codes"],
@@ -87,7 +90,8 @@ META2 = {
         engine=E1,
         explanation="k_rt.c: for symbolic values of 1-2 read-write variables the real READ formatter (start_processing_format_read_args + format_read_args) produces the argument list, the variables are "
                     "scrambled, and the real WRITE parser (parse_write_args) must accept that text and restore every value. snprintf is the witness-style model validated against libc.",
-        bounds={"quick": "every bit pattern of 8/16-bit signed, unsigned, hex and 32-bit hex; all byte-buffer contents and all strings (any non-NUL byte) for data_size 1..8; homogeneous pairs at 8 bit",
+        bounds={"quick": "every bit pattern of 8/16-bit signed, unsigned, hex and 32-bit hex; all byte-buffer contents and all strings (any non-NUL byte) for data_size 1..8; homogeneous pairs at 8 bit; "
+                         "command-buffer capacity symbolic from 6 bytes up to 16 / 22 (a response that does not fit must be refused, never cut and then accepted back)",
                 "thorough": "additionally 32-bit signed/unsigned over the full range (Kissat) and all 25 ordered type pairs"},
         outside="data_size 9..64; three or more variables; the line-level loop (C06 + C10 carry the text through the parser unchanged)",
         assumptions=["snprintf model (k_snprintf validation)", "strings are NUL-terminated inside data_size (length < data_size, the property's domain)"],
@@ -96,7 +100,8 @@ META2 = {
         engine=E2 + " + " + E3 + " + " + E1,
         explanation="s_step.c: after one call from any RI state the storage of every read-only variable is bit-identical (all states, all inputs, all histories). r_twin.c MODE 2: two guided runs of the same "
                     "READ / TEST line that differ only in the stored contents of write-only variables must emit identical bytes (non-interference). k_num.c / k_buf.c: a read-only variable keeps its value "
-                    "for every argument text.",
+                    "for every argument text. k_access.c: the real READ / WRITE dispatch on 1-3 variables with symbolic access modes and handler presence refuses exactly when nothing is readable / "
+                    "writable and there is no handler of that kind.",
         bounds={"quick": "102 step jobs (as C03, built-in checks off), 3 twin shapes (ATn?L, ATnn?L, ATn=?L), 5 kernel jobs", "thorough": "1516 step jobs"},
         outside="unsolicited READ of write-only variables at line level (covered at step level only), more than 2 variables in the twin runs",
         assumptions=[RI_NOTE, FAMILY, "variable callbacks do not modify variable storage themselves"],
@@ -113,7 +118,8 @@ META2 = {
         engine=E3,
         explanation="r_codes.c: one request per handler kind; the handler returns a symbolic sequence of NRC codes from {ERROR, DATA_OK, DATA_NEXT, NEXT, OK, HOLD_EXIT_OK, HOLD_EXIT_ERROR, "
                     "PRINT_CMD_LIST_OK where invalid, 9, -2} and may rewrite its buffer; a reference interpreter predicts invocation count, every emitted unit and the final code; variable callbacks may fail. "
-                    "r_list.c covers PRINT_CMD_LIST_OK where it is valid.",
+                    "r_list.c covers PRINT_CMD_LIST_OK where it is valid. s_step.c adds one row of the table per call from ANY state (write/run/read/test loops of the command FSM with a symbolic code, "
+                    "read/test loops of the event FSM with each of 9 concrete codes): next state / emission / result code exactly as the table says, no result code for events - so sequences of any length follow by induction.",
         bounds={"quick": "sequences of 3 codes (read/test) and 4 codes (write/run), shared buffer 6..8 bytes and separate 18..20-byte buffer", "thorough": "5 / 6 codes"},
         outside="longer code sequences (each further code repeats the same arm; step jobs of C03/C15 cover single steps from any state), handlers of unsolicited events at line level (step level only)",
         assumptions=["the last code of a sequence is terminal (the property's premise)"],
